@@ -183,9 +183,76 @@ def _pat_variants(p):
     return out
 
 
+def lift_group_table_by_value(facts):
+    """The group table read off the VALUE of the function WallpaperGroups -> WallpaperGroup: every path is executed
+    symbolically (helpers by their definitions, vec! literals as sequences); a path's conditions on the discriminant of the
+    parameter say which variants take it, its result is the WallpaperGroup literal.  Independent of how the table is laid out
+    in the source (one match, one match per field, helper methods, constants)."""
+    from .sym import SymEx, SYM, sfield
+    from .celltables import _family_of_pc
+    cands = []
+    for b in facts.bodies.values():
+        if b.is_closure or b.arg_count != 1 or b.derived:
+            continue
+        a_ty = facts.norm(b.local_ty(1)).replace('&', '').strip()
+        r_ty = facts.norm(b.local_ty(0))
+        if a_ty.endswith('wallpaper::WallpaperGroups') and 'wallpaper::WallpaperGroup<' in r_ty + '<' and 'WallpaperGroups' not in r_ty:
+            cands.append(b)
+    if len(cands) != 1:
+        return None, None, ['expected exactly one function from WallpaperGroups to WallpaperGroup, found %d' % len(cands)]
+    b = cands[0]
+    adt = facts.adts.get('wallpaper::WallpaperGroups')
+    if not adt:
+        return None, None, ['enum WallpaperGroups not found']
+    variants = list(adt['variants'])
+    pname = b.local_name(1) or 'arg1'
+    sx = SymEx(facts)
+    try:
+        outs = sx.run(b, [SYM(pname)])
+    except Exception as ex:      # noqa: BLE001
+        return None, None, ['the group table function could not be evaluated: %s' % str(ex)[:80]]
+    if not outs or sx.aborted:
+        return None, None, ['the group table function is not loop-free']
+    table, problems = {}, []
+    for o in outs:
+        vs = _family_of_pc(o.pc, variants, who=pname)
+        r = sx.deep(o.st, o.ret)
+        for _ in range(2):
+            if isinstance(r, tuple) and r[0] == 'struct' and r[2] is not None and r[2][0] in ('Ok', 'Some'):
+                r = sfield(r, '0')
+        if not (isinstance(r, tuple) and r[0] == 'struct' and r[1].endswith('wallpaper::WallpaperGroup')):
+            problems.append('variants %s do not yield a WallpaperGroup value' % sorted(vs))
+            continue
+        nm, fam, ops = sfield(r, 'name'), sfield(r, 'family'), sfield(r, 'wyckoff_str')
+        rec = {'name': nm[1] if isinstance(nm, tuple) and nm[0] == 'str' else None,
+               'family': fam[2][0] if isinstance(fam, tuple) and fam[0] == 'struct' and fam[2] is not None else None,
+               'ops': None, 'line': b.span.get('line')}
+        if rec['name'] is None:
+            problems.append('variants %s: name is not a string constant' % sorted(vs))
+        if rec['family'] is None:
+            problems.append('variants %s: family is not a CrystalFamily constant' % sorted(vs))
+        items = sx.as_seq(o.st, ops)
+        if items is not None and all(isinstance(x, tuple) and x[0] == 'str' for x in items):
+            rec['ops'] = [x[1] for x in items]
+        else:
+            problems.append('variants %s: wyckoff_str is not a list of string constants' % sorted(vs))
+        for v in sorted(vs):
+            if v in table and table[v] != rec:
+                problems.append('variant %s reaches two different groups' % v)
+            table[v] = rec
+    for v in variants:
+        if v not in table:
+            problems.append('variant %s yields no group' % v)
+    return b.path, table, problems
+
+
 def lift_group_table(facts):
-    """Find the match over wallpaper::WallpaperGroups whose arms build a WallpaperGroup and return
-    (fn path, {variant: {'name': str|None, 'family': str|None, 'ops': [str], 'raw_names': [...]}}, problems)."""
+    """(fn path, {variant: {'name': str|None, 'family': str|None, 'ops': [str]}}, problems): by value (see
+    lift_group_table_by_value); when the function cannot be evaluated, by the syntax of the one match over
+    wallpaper::WallpaperGroups whose arms build a WallpaperGroup."""
+    vpath, vtable, vproblems = lift_group_table_by_value(facts)
+    if vtable and not vproblems:
+        return vpath, vtable, vproblems
     found = []
     for path, h in facts.hir.items():
         ms = hir_find(h['body'], lambda n: n.get('k') == 'match' and
